@@ -15,6 +15,7 @@ Require Import V.Proofs.C06OracleProofs.
 Require Import V.Model.RingThreads.
 Require Import V.Proofs.RingConc.
 Require Import V.Proofs.RingConcThm.
+Require Import V.Proofs.RingLog.
 Open Scope Z_scope.
 
 (* ---------------------------------------------------------------------------------------------
@@ -195,3 +196,53 @@ Theorem C06_conc_no_panic : forall lo cfg, Inv lo cfg ->
   c_pc (g_cons cfg) <> CPanic /\ (forall i ps, nth_error (g_prods cfg) i = Some ps -> p_pc ps <> PPanic).
 Proof. exact inv_no_panic. Qed.
 Print Assumptions C06_conc_no_panic.
+
+(* C06_conc: consumed ++ pending is a linearisation of the successful writes.  `log cfg` = the tags
+   (producer, number of the write call) of everything delivered so far followed by those of the record
+   pieces still in the ring, in position order.  `claimed ps` = the write calls of a producer that obtained
+   space (returned Ok, or in flight after the compare-and-set).  For every reachable configuration and every
+   producer: the log restricted to that producer is exactly its claimed writes in program order - nothing
+   lost, nothing duplicated, order preserved - and everything delivered carries the type and bytes the
+   producer's program passed to write (or is a command of the sequential prelude, owner 0). *)
+Theorem C06_conc : forall lo m c0 c i ps,
+  Inv lo c0 -> LogInv c0 -> reach lo m c0 c -> nth_error (g_prods c) i = Some ps ->
+  of_owner (Z.of_nat (S i)) (log c) = map (fun k => (Z.of_nat (S i), k)) (claimed ps) /\
+  Sorted.StronglySorted Z.lt (claimed ps) /\ NoDup (of_owner (Z.of_nat (S i)) (log c)).
+Proof. intros lo m c0 c i ps H0 L0 Hr Hi. apply log_linear; [eapply reach_log; eassumption | assumption]. Qed.
+Print Assumptions C06_conc.
+
+Theorem C06_conc_intact : forall lo m c0 c o k ty b,
+  Inv lo c0 -> LogInv c0 -> reach lo m c0 c -> In (o, k, ty, b) (delivered (g_cons c)) ->
+  o = 0 \/ exists i ps, o = Z.of_nat (S i) /\ nth_error (g_prods c) i = Some ps /\
+                        0 <= k /\ nth_error (p_prog ps) (Z.to_nat k) = Some (ty, b).
+Proof. intros lo m c0 c o k ty b H0 L0 Hr Hin. exact (l_intact _ (reach_log _ _ _ _ H0 L0 Hr) o k ty b Hin). Qed.
+Print Assumptions C06_conc_intact.
+
+Theorem C06_conc_log_initial : forall R limits progs, wf R -> Forall (Forall wreq_ok) progs -> LogInv (start R limits progs).
+Proof. exact loginv_start. Qed.
+Print Assumptions C06_conc_log_initial.
+
+(* non-vacuity: two producers and the consumer on a 64-byte ring; producer 1 is pre-empted between its
+   compare-and-set and its header while producer 2 claims behind it (with padding) and commits; at the end
+   the consumer is in the middle of its second read (it holds producer 2's message, not yet published) and
+   producer 1 is in flight on its second write *)
+Definition ex_k0 : config := start (init 64 40 40 0) [5; 5] [[(1, payload 0 8); (3, payload 2 0)]; [(2, payload 1 3)]].
+Definition ex_sched : list nat :=
+  ([1; 1; 1] ++ [2; 2; 2; 2; 2; 2; 2] ++ [1; 1; 1] ++ [0; 0; 0; 0; 0; 0] ++ [1; 1; 1] ++ [0; 0; 0; 0])%nat.
+Definition ex_k : config := match replay_ok 40 Debug ex_k0 ex_sched with Some c => c | None => ex_k0 end.
+Example C06_conc_example :
+  Inv 40 ex_k0 /\ LogInv ex_k0 /\ reach 40 Debug ex_k0 ex_k /\
+  log ex_k = [(1, 0); (2, 0); (1, 1)] /\ map untag (delivered (g_cons ex_k)) = [(1, payload 0 8)] /\
+  c_pc (g_cons ex_k) = CZero 64 16 1 [(2, 0, 2, payload 1 3)] /\ map p_pc (g_prods ex_k) = [PHdr 80; PDone].
+Proof. split; [| split; [| split; [| repeat split; vm_compute; reflexivity]]].
+  - change (Inv (r_hc (init 64 40 40 0)) (start (init 64 40 40 0) [5; 5] [[(1, payload 0 8); (3, payload 2 0)]; [(2, payload 1 3)]])).
+    apply inv_start.
+    + apply wf_init; [exists 6; split; [lia | reflexivity] | lia | reflexivity | unfold two31; lia].
+    + repeat (constructor; try (right; reflexivity)).
+    + cbn. unfold two61. lia.
+    + cbn. unfold two30. lia.
+  - apply loginv_start.
+    + apply wf_init; [exists 6; split; [lia | reflexivity] | lia | reflexivity | unfold two31; lia].
+    + repeat (constructor; try (right; reflexivity)).
+  - assert (E : replay_ok 40 Debug ex_k0 ex_sched = Some ex_k) by (vm_compute; reflexivity).
+    exact (replay_reach _ _ _ _ _ _ E (reach_refl _ _ _)). Qed.
